@@ -208,9 +208,12 @@ func coerceLiteral(from ast.Value, to Type, variableValues map[string]interface{
 		}
 		return nil, nil
 	} else if variable, ok := from.(*ast.Variable); ok {
-		if value, ok := variableValues[variable.Name.Name]; ok {
-			return value, nil
+		// A variable without a runtime value can only get here as a list item, where it is null.
+		value := variableValues[variable.Name.Name]
+		if value == nil && IsNonNullType(to) {
+			return nil, fmt.Errorf("cannot coerce null to non-null type")
 		}
+		return value, nil
 	}
 
 	switch to := to.(type) {
